@@ -1,16 +1,125 @@
 /-
   PCV.Model.DrvC14 — driver requests of property C14 (op names start with "c14.").
+
+  Keys are sent as `g g2 tau D mep` and rebuilt with `SKZG.CK.new` (the harness sends `g = g2 = 1`:
+  it compares group elements relative to the library's own generators).  Polynomials are
+  little-endian coefficient lists; the model reverses them where the code takes a big-endian stream.
 -/
 import PCV.Model.Wire
 import PCV.Model.DrvUtil
+import PCV.Model.Fold
 namespace PCV
 namespace DrvC14
+open Driver
+
+variable {p : Nat}
+
+def key (r : Req) : R (SKZG.CK (Fp p)) := do
+  let g ← asFe (← need r "g")
+  let g2 ← asFe (← need r "g2")
+  let τ ← asFe (← need r "tau")
+  let D ← asNat (← need r "D")
+  let mep ← asNat (← need r "mep")
+  pure (SKZG.CK.new g g2 τ D mep)
+
+def vkOf (r : Req) (ck : SKZG.CK (Fp p)) : R (Except Err (SKZG.VK (Fp p))) := do
+  let from_ ← asNat (← need r "vkfrom")
+  pure (if from_ = 0 then SKZG.VK.ofTime ck else SKZG.VK.ofSpace (SKZG.CKS.ofTime ck))
+
+def vFess (xs : List (List (Fp p))) : Val := .l (xs.map vFes)
+
+def handleOp (r : Req) : R String := do
+  match r.op with
+  | "c14.time_open" =>
+    let ck ← key (p := p) r
+    let f ← asFes (← need r "p")
+    let α ← asFe (← need r "alpha")
+    let o := SKZG.Time.open ck f α
+    pure <| okReply [("c", vFe (SKZG.Time.commit ck f)), ("v", vFe o.1), ("pi", vFe o.2)]
+  | "c14.space_open" =>
+    let ck ← key (p := p) r
+    let f ← asFes (← need r "p")
+    let α ← asFe (← need r "alpha")
+    let cks := SKZG.CKS.ofTime ck
+    let res : Except Err (Fp p × Fp p × Fp p) :=
+      match SKZG.Space.commit cks f.reverse with
+      | .error e => .error e
+      | .ok c => match SKZG.Space.open cks f.reverse α with
+        | .error e => .error e
+        | .ok o => .ok (c, o.1, o.2)
+    pure <| exceptReply res fun (c, v, π) => [("c", vFe c), ("v", vFe v), ("pi", vFe π)]
+  | "c14.verify" =>
+    let ck ← key (p := p) r
+    let vk ← vkOf r ck
+    let c ← asFe (← need r "c")
+    let α ← asFe (← need r "alpha")
+    let v ← asFe (← need r "v")
+    let π ← asFe (← need r "pi")
+    let res := match vk with
+      | .error e => .error e
+      | .ok vk => SKZG.verify vk c α v π
+    pure <| exceptReply res fun b => [("b", vBool b)]
+  | "c14.time_multi" =>
+    let ck ← key (p := p) r
+    let fs ← asFess (← need r "polys")
+    let pts ← asFes (← need r "pts")
+    let η ← asFe (← need r "eta")
+    let res : Except Err (Fp p × List (Fp p)) :=
+      match SKZG.Time.batchOpenMultiPoints ck fs pts η with
+      | .error e => .error e
+      | .ok π => match Fold.mapExcept (fun f => SKZG.Time.openMultiPoints ck f pts) fs with
+        | .error e => .error e
+        | .ok πs => .ok (π, πs)
+    pure <| exceptReply res fun (π, πs) =>
+      [("pi", vFe π), ("pis", vFes πs), ("cs", vFes (SKZG.Time.batchCommit ck fs))]
+  | "c14.space_multi" =>
+    let ck ← key (p := p) r
+    let f ← asFes (← need r "p")
+    let pts ← asFes (← need r "pts")
+    pure <| exceptReply (SKZG.Space.openMultiPoints (SKZG.CKS.ofTime ck) f.reverse pts)
+      fun (rem, π) => [("rem", vFes rem), ("pi", vFe π)]
+  | "c14.verify_multi" =>
+    let ck ← key (p := p) r
+    let vk ← vkOf r ck
+    let cs ← asFes (← need r "cs")
+    let pts ← asFes (← need r "pts")
+    let evals ← asFess (← need r "evals")
+    let π ← asFe (← need r "pi")
+    let η ← asFe (← need r "eta")
+    let res := match vk with
+      | .error e => .error e
+      | .ok vk => SKZG.verifyMultiPoints vk cs pts evals π η
+    pure <| exceptReply res fun b => [("b", vBool b)]
+  | "c14.fold" =>
+    let cs ← asFes (p := p) (← need r "cs")
+    let chal ← asFes (← need r "chal")
+    let items := Fold.Tree.toList cs.reverse chal
+    pure <| okReply
+      [("foldings", vFess ((Fold.foldings cs chal).map List.reverse)),
+       ("tree_levels", vNats (items.map (·.1))),
+       ("tree_values", vFes (items.map (·.2))),
+       ("stream", vFes (Fold.Stream.toList cs.reverse chal)),
+       ("stream_len", .n (Fold.Stream.len cs.length chal.length)),
+       ("init_stack", vNats ((Fold.initStack cs.length chal.length : List (Nat × Fp p)).map (·.1)))]
+  | "c14.commit_folding" =>
+    let ck ← key (p := p) r
+    let cs ← asFes (← need r "cs")
+    let chal ← asFes (← need r "chal")
+    pure <| exceptReply (Fold.commitFolding (SKZG.CKS.ofTime ck) cs.reverse chal)
+      fun cms => [("cs", vFes cms)]
+  | "c14.open_folding" =>
+    let ck ← key (p := p) r
+    let cs ← asFes (← need r "cs")
+    let chal ← asFes (← need r "chal")
+    let pts ← asFes (← need r "pts")
+    let etas ← asFes (← need r "etas")
+    pure <| exceptReply (Fold.openFolding (SKZG.CKS.ofTime ck) cs.reverse chal pts etas)
+      fun (rems, π) => [("rems", vFess rems), ("pi", vFe π)]
+  | _ => .error "unknown-op"
 
 /-- `none` = not an op of this module -/
 def handle (p : Nat) (r : Req) : Option (Except String String) :=
-  let _ := p
-  let _ := r
-  none
+  if r.op.startsWith "c14." then some (handleOp (p := p) r) else none
 
 end DrvC14
 end PCV
